@@ -678,4 +678,50 @@ def rfcAllowed (st : StreamSt) (fk : FrameKind) : List StreamOut :=
       | .headers => [.handled, .streamError PROTOCOL_ERROR, .connError PROTOCOL_ERROR]
       | _ => [.handled]
 
+
+/-! ## from decoded frames to flood events -/
+
+/-- what the connection knows about the frame's stream when it arrives -/
+inductive FrameCtx where
+  /-- stream 0, or a stream that is in the stream map -/
+  | normal
+  /-- a stream that was used and is gone (closed): not in the map, id <= highest peer id -/
+  | closedStream
+  /-- between a HEADERS without END_HEADERS and the end of its header block -/
+  | inHeaderBlock
+deriving DecidableEq, Repr
+
+/-- the SETTINGS identifiers `handle_settings_frame` knows; any other bumps the glitch counter -/
+def knownSettingsId (id : Nat) : Bool :=
+  [Consts.h2SettingsIdHeaderTableSize, Consts.h2SettingsIdEnablePush, Consts.h2SettingsIdMaxConcurrentStreams,
+   Consts.h2SettingsIdInitialWindowSize, Consts.h2SettingsIdMaxFrameSize, Consts.h2SettingsIdMaxHeaderListSize,
+   Consts.h2SettingsIdEnableConnectProtocol, Consts.h2SettingsIdNoRfc7540Priorities].contains id
+
+/-- The flood-detector events one received frame causes, in order
+    (`handle_header_state` first, then the `handle_*_frame` function). The tests
+    are on the *decoded* frame: an "empty" DATA frame is one whose content (after
+    removing pad-length byte and padding) is empty and that does not end the
+    stream - whatever its wire length. PING / SETTINGS with ACK, PRIORITY,
+    PRIORITY_UPDATE, GOAWAY and unknown frame types are not counted at all. -/
+def frameEvents (ctx : FrameCtx) (h : Header) : Frame → List FloodOp
+  | .data _ payload es =>
+    (if ctx = .closedStream then [.glitch] else []) ++ (if payload.isEmpty && !es then [.emptyData] else [])
+  | .ping _ ack => if ack then [] else [.ping]
+  | .settings es ack => if ack then [] else [.settings (es.filter fun e => !knownSettingsId e.1).length]
+  | .windowUpdate sid inc =>
+    if sid = 0 then (if inc = 0 then [] else [.wu0])
+    else if ctx = .closedStream then (if inc = 0 then [.glitch, .glitch] else [.glitch, .glitch])
+    else []
+  | .rstStream _ _ => if ctx = .closedStream then [.glitch, .rstReceived true] else [.rstReceived false]
+  | .headers _ _ frag _ eh => if eh then [.headersEnd] else [.headersStart frag.length]
+  | .continuation =>
+    if ctx = .inHeaderBlock then
+      [.continuation h.len] ++ (if flagSet h.flags Consts.h2FlagEndHeaders then [.headersEnd] else [])
+    else []
+  | _ => []
+
+/-- one received frame: its events, until the first violation -/
+def floodFrame (s : Flood) (ctx : FrameCtx) (h : Header) (f : Frame) : Flood × Option Violation :=
+  floodRun s (frameEvents ctx h f)
+
 end Sozu.H2Wire
